@@ -805,11 +805,8 @@ static inline bool ExprFieldRef(const AFilter & f, const std::string * defText, 
    return true;
 }
 // text of a numeric value such that the parser's atol/atof conversion gives back exactly (v); empty if there is none
-static inline long & SkippedInt64MinLiterals() { static long n = 0; return n; }
 static inline std::string NumText(int vt, const AVal & v)
 {
-   // finding (Atoll() negates INT64_MIN, signed overflow): the one literal is kept out of random expressions and has its own fixed witness in h_filter's regress mode
-   if (vt == VT_INT64 && v.i == INT64_MIN) { SkippedInt64MinLiterals()++; return ""; }
    switch (vt) {
       case VT_BOOL: return v.i ? "true" : "false";
       case VT_FLOAT: { if (v.f[0] != v.f[0] || fabsf(v.f[0]) > 1e6f) return ""; const std::string t = vh::fmt("%.9g", (double)v.f[0]); if (t.find('e') != std::string::npos || (float)atof(t.c_str()) != v.f[0]) return ""; return t; }
